@@ -161,6 +161,8 @@ def run(rep, tier):
         rep.ob('R-FWD', 'default;nonforwarder;%s' % fn['id'], False, 'reference form is not a pure forwarder (%s)' % why)
     fwd.run_assign(rep, db, ['core::ops::arith::DivAssign'])
     rep.floor('R-FWD', 110)
+    from . import deps
+    deps.run(rep, tier, ('R', 'W-shifted'))      # proofs of the summaries this check relies on
     rep.explanation = ('Per scale pair the MIR of Div / CheckedDiv (Decimal and integer forms) is interpreted with symbolic coefficients and the proved rounding summaries: a zero divisor '
                        'gives DivisionByZero / None and nothing else does; 0/y = (0,0); x/1 = x unchanged; otherwise the returned (c, f) satisfies c*10^(18-f) = Rnd[thread](10^(18+q-p) x / y) '
                        '(cross-multiplied rationals, through the equalities recorded by the normalisation loop) with f = 0 or c mod 10 != 0; the only other failure is the rounded quotient '
